@@ -186,6 +186,38 @@ def impl_inv(a):
     except Exception as e:
         out = ('err', type(e).__name__, None)
     pure = arr.tobytes() == before
+    # the same matrix in the other containers a caller may own (seeded change C17-r6m1: np.asarray instead of
+    # np.array aliases an input that already has the working dtype): extended precision, Fortran order, a strided
+    # view, float32 / integer storage where that is lossless -- the argument must come back bit-identical and the
+    # outcome (inverse / exception class) must be the one obtained for the float64 array
+    variants = [np.array(arr, dtype=np.longdouble), np.asfortranarray(arr),
+                np.array(np.asfortranarray(arr), dtype=np.longdouble, order='F')]
+    if arr.ndim == 2 and arr.size:
+        big = np.zeros((2 * arr.shape[0], 2 * arr.shape[1]), dtype=np.longdouble)
+        big[::2, ::2] = arr
+        variants.append(big[::2, ::2])
+    with np.errstate(all='ignore'):
+        if np.all(np.isfinite(arr)) and np.array_equal(arr.astype(np.float32).astype(np.double), arr):
+            variants.append(arr.astype(np.float32))
+        if np.all(np.isfinite(arr)) and np.all(np.abs(arr) < 2**53) and np.array_equal(np.rint(arr), arr):
+            variants.append(arr.astype(np.int64))
+    for v in variants:
+        vb = v.tobytes()
+        try:
+            xv = linalg.inv(v)
+            outv = ('ok', np.array(xv, dtype=np.longdouble))
+        except np.linalg.LinAlgError:
+            outv = ('err', 'LinAlgError')
+        except Exception as e:
+            outv = ('err', type(e).__name__)
+        if v.tobytes() != vb:
+            pure = False
+        if outv[0] != out[0] or (outv[0] == 'err' and outv[1] != out[1]):
+            pure = False   # container-dependent outcome: reported through the same channel
+        elif outv[0] == 'ok' and out[1].shape == outv[1].shape and out[1].size and np.all(np.isfinite(out[1])):
+            sc = float(np.max(np.abs(out[1])))
+            if float(np.max(np.abs(outv[1] - out[1]))) > 1e-6 * sc + 1e-300 and np.linalg.cond(arr) < 1e8:
+                pure = False
     return (out[0], out[1], pure)
 
 
